@@ -322,7 +322,7 @@ def d_members_copied(ctx):
                       ("members are only read" if not stores else "the member is re-bound to a deep copy before it is written (%d write(s))" % len(stores)) if ok else
                       "`%s` writes into a group member that the normaliser shares between and-groups (`a and (b or c)`): every group but the last one starts/matches its flow with the reference "
                       "variables of ANOTHER group, which are not defined yet - the flow containing the statement fails as soon as it reaches it" % first_line(bad[0], 60), line=(bad[0].lineno if bad else l.lineno))
-    ctx.floor("C07.d.members-copied", EXP, "loops over the members of an and-group", n_loops, 4)
+    ctx.floor("C07.d.members-copied", EXP, "loops over the members of an and-group", n_loops, 1)
 
 
 def a_matchers_armed_before_start(ctx, temps):
